@@ -1,0 +1,105 @@
+//go:build verif
+
+// Contracts (machine-checked by /verif/engine, see /verif/DESIGN.md). Comment-only file.
+package bungeecord
+
+// ---- C26: the BungeeCord plugin messaging channel --------------------------------------------------------------------
+// Forward payload: read channel (UTF), length (int16), exactly that many bytes; a negative length or a short read
+// forwards nothing (and allocates nothing negative); the result is channel as UTF (length-prefixed), the same length,
+// the same bytes.
+//@ func (*bungeeCordMessageResponder).prepareForwardMessage
+//@   props C26
+//@   ghostpre
+//@   at-call ReadUTF as ch: assert arg0 == in
+//@   at-call ReadInt16 as ln: assert called(ch) && res(ch, 1) == nil && arg0 == in
+//@   at-call ReadFull as body: assert [length-checked-before-the-allocation] called(ln) && res(ln, 1) == nil && res(ln, 0) >= 0 && arg0 == in && len(arg1) == int(res(ln, 0))
+//@   at-call WriteUTF as wch: assert [channel-is-length-prefixed] called(body) && res(body, 1) == nil && streq(arg1, res(ch, 0))
+//@   at-call WriteInt16 as wln: assert [same-length] called(wch) && arg1 == res(ln, 0)
+//@   at-call Write as wb: assert [same-bytes] called(wln) && ref(arg1) == ref(arg(body, 1)) && len(arg1) == int(res(ln, 0))
+//@   ensures [malformed-request-forwards-nothing] (called(ch) && res(ch, 1) != nil) || (called(ln) && (res(ln, 1) != nil || res(ln, 0) < 0)) || (called(body) && res(body, 1) != nil) ==> len(forward) == 0 && !called(wch)
+//@   ensures [well-formed-request-is-rebuilt] called(body) && res(body, 1) == nil ==> called(wch) && called(wln) && called(wb)
+
+// Forward: ALL / ONLINE reach every server except the sender's own, each once (one call per element of Servers());
+// any other target reaches exactly that server if it exists and nobody otherwise - never both paths.
+//@ func (*bungeeCordMessageResponder).processForwardToServer
+//@   props C26
+//@   ghostpre
+//@   loop 1: invariant rangeindex >= -1 && called(list) && rangeindex < len(res(list)) && (res(all) || res(online))
+//@   at-call ReadUTF as tgt: assert arg0 == in
+//@   at-call prepareForwardMessage as prep: assert called(tgt) && res(tgt, 1) == nil && arg1 == in
+//@   at-call EqualFold#1 as all: assert streq(arg0, res(tgt, 0)) && streq(arg1, "ALL")
+//@   at-call EqualFold#2 as online: assert streq(arg0, res(tgt, 0)) && streq(arg1, "ONLINE")
+//@   at-call Servers as list
+//@   at-call Name#2 as nm: assert arg0 == server
+//@   at-call BroadcastPluginMessage#1 as bc: assert [everyone-but-the-senders-server] (res(all) || res(online)) && arg0 == server && called(nm) && !streq(res(nm), currentUserServer) && ref(arg2) == ref(res(prep)) && len(arg2) == len(res(prep))
+//@   at-call Server as one: assert !res(all) && !res(online) && streq(arg1, res(tgt, 0))
+//@   at-call BroadcastPluginMessage#2 as uni: assert [named-server-only] !res(all) && !res(online) && called(one) && arg0 == res(one) && res(one) != nil && ref(arg2) == ref(res(prep)) && len(arg2) == len(res(prep))
+//@   ensures [unreadable-target-forwards-nothing] called(tgt) && res(tgt, 1) != nil ==> !called(prep) && !called(bc) && !called(uni)
+//@   ensures [named-target-is-reached-iff-it-exists] called(one) ==> (called(uni) == (res(one) != nil))
+
+// Lookups: the callback runs only for an existing player / server, with that player / server.
+//@ func (*bungeeCordMessageResponder).readPlayer
+//@   props C26
+//@   ghostpre
+//@   at-call ReadUTF as nm: assert arg0 == in
+//@   at-call PlayerByName as look: assert called(nm) && res(nm, 1) == nil && streq(arg1, res(nm, 0))
+//@   at-call dyn.fn as run: assert [only-for-an-existing-player] called(look) && res(look) != nil && arg0 == res(look)
+//@   ensures [unknown-player-does-nothing] !called(look) || res(look) == nil ==> !called(run)
+//@ func (*bungeeCordMessageResponder).readServer
+//@   props C26
+//@   ghostpre
+//@   at-call ReadUTF as nm: assert arg0 == in
+//@   at-call Server as look: assert called(nm) && res(nm, 1) == nil && streq(arg1, res(nm, 0))
+//@   at-call dyn.fn as run: assert [only-for-an-existing-server] called(look) && res(look) != nil && arg0 == res(look)
+//@   ensures [unknown-server-does-nothing] !called(look) || res(look) == nil ==> !called(run)
+
+// Responses go to the responder's own backend connection, on the channel of that connection's protocol; an empty
+// response or a missing connection writes nothing.
+//@ func (*bungeeCordMessageResponder).sendServerResponse
+//@   props C26
+//@   ghostpre
+//@   at-call ConnectedServer as cs
+//@   at-call Protocol as pr: assert arg0 == res(cs)
+//@   at-call Channel as chn: assert arg0 == res(pr)
+//@   at-call WritePacket as w: assert len(in) != 0 && res(cs) != nil && arg0 == res(cs) && dyntype(arg1, "plugin.Message") && streq(cast(arg1, *plugin.Message).Channel, res(chn)) && ref(cast(arg1, *plugin.Message).Data) == ref(in) && len(cast(arg1, *plugin.Message).Data) == len(in)
+//@   ensures [empty-response-is-not-sent] len(in) == 0 ==> !called(w)
+
+// Message / MessageRaw: an unknown server is skipped, not dereferenced.
+//@ func (*bungeeCordMessageResponder).processMessage0
+//@   props C26
+//@   ghostpre
+//@   at-call Server as look
+//@   at-call BroadcastMessage#2 as toServer: assert [only-an-existing-server] called(look) && res(look) != nil && arg0 == res(look)
+
+// Fixed layouts (BungeeCord plugin messaging): sub-channel name first, then the fields in order.
+//@ func (*bungeeCordMessageResponder).processIP
+//@   props C26
+//@   ghostpre
+//@   at-call WriteUTF#1 as f1: assert streq(arg1, "IP")
+//@   at-call WriteUTF#2 as f2: assert called(f1) && streq(arg1, host)
+//@   at-call WriteInt32 as f3: assert called(f2) && arg1 == int32(port)
+//@   at-call sendServerResponse as send: assert called(f3)
+//@ func (*bungeeCordMessageResponder).processGetServer
+//@   props C26
+//@   ghostpre
+//@   at-call ConnectedServer as cs
+//@   at-call WriteUTF#1 as f1: assert res(cs) != nil && streq(arg1, "GetServer")
+//@   at-call Name as nm: assert arg0 == res(cs)
+//@   at-call WriteUTF#2 as f2: assert called(f1) && streq(arg1, res(nm))
+//@   at-call sendServerResponse as send: assert called(f2)
+//@ func (*bungeeCordMessageResponder).processUUID
+//@   props C26
+//@   ghostpre
+//@   at-call WriteUTF#1 as f1: assert streq(arg1, "UUID")
+//@   at-call WriteUTF#2 as f2: assert called(f1)
+//@   at-call sendServerResponse as send: assert called(f2)
+//@ func (*bungeeCordMessageResponder).processPlayerCount
+//@   props C26
+//@   ghostpre
+//@   at-call WriteUTF#1 as f1: assert streq(arg1, "PlayerCount")
+//@   at-call WriteUTF#2 as f2: assert called(f1) && streq(arg1, name)
+//@   at-call WriteInt32 as f3: assert called(f2) && arg1 == int32(count)
+//@   at-call sendServerResponse as send: assert called(f3)
+
+// ForwardToPlayer must act on the NAMED player: the looked-up player has to be used by the callback.
+//@ uses-param (*bungeeCordMessageResponder).processForwardToPlayer$1 player ; props C26
